@@ -7,8 +7,8 @@ from . import place_common as pc
 from .c26 import compare, digest
 
 RULE = ("K: the constraint systems of the C26 generator (1-8 objects, all five constraint kinds, static shapes/positions, "
-        "under-/over-constrained and conflicting systems, uniform and non-uniform grids, tiny max_iter) plus the two witness "
-        "families of the defects of the pinned tree; each system is solved by fdtdx.resolve_object_constraints under EVERY "
+        "under-/over-constrained and conflicting systems, uniform and non-uniform grids, tiny max_iter) plus the three witness "
+        "families of the defects of the pinned tree (early exit, skipped real position, unknown volume bound); each system is solved by fdtdx.resolve_object_constraints under EVERY "
         "permutation of its constraints when it has <= 4 of them (<= 24 orders, combined with reversed/shuffled object lists) and "
         "under 8 random constraint orders x object orders otherwise. Oracle (independent of the model): success/failure and "
         "all resolved slices are identical across the orders. Every single run is also compared exactly with the compiled Lean "
